@@ -300,7 +300,12 @@ class TrafficFilter:
         Returns:
             bool: True if the IP is external, False otherwise
         """
-        return IPv4Address(ip) not in _PRIVATE_IP_RANGES.get(ip[:2], _BLACK_HOLE)
+        address = ip_address(ip)
+        if not isinstance(address, IPv4Address):
+            # The private ranges table is IPv4 only, forward only global IPv6 destinations.
+            return address.is_global
+
+        return address not in _PRIVATE_IP_RANGES.get(ip[:2], _BLACK_HOLE)
 
     def _is_external_domain(self, host: str) -> Optional[bool]:
         """Check whether an HOST is external or not
@@ -314,8 +319,9 @@ class TrafficFilter:
         try:
             return self._is_external_ip(gethostbyname(host))
 
-        except socket_error as error:
-            # If there is a network error, we will avoid storing this and will try again next time.
+        except (socket_error, UnicodeError) as error:
+            # If there is a network error (or the host name can not be encoded for the resolver),
+            # we will avoid storing this and will try again next time.
             self._logger.warning(
                 f"TrafficFilter::Could not resolve: '{host}'. Error: {error}"
             )
